@@ -19,6 +19,45 @@ def controls_for(prop):
     return out
 
 
+def negative_controls(prop):
+    """behaviour-preserving refactorings written for this property that were recorded as silent must stay silent.
+    An alarm here is a precision regression of the checker, not a violation of the property by /repo: it is
+    reported as a NOTE and in the evidence file and does not change the exit status."""
+    res = {"silent": 0, "skipped": 0, "alarming": []}
+    for d in sorted(glob.glob(os.path.join(VERIF, "refactorings", "*"))):
+        mf = os.path.join(d, "meta.json")
+        if not os.path.exists(mf):
+            continue
+        m = json.load(open(mf))
+        if m.get("property") != prop or m.get("alarms"):
+            continue
+        tmp = tempfile.mkdtemp(prefix="hvneg-")
+        try:
+            dst = os.path.join(tmp, "repo")
+            os.makedirs(dst)
+            for f in ("src", "Cargo.toml", "Cargo.lock"):
+                s_ = os.path.join(REPO, f)
+                if os.path.isdir(s_):
+                    shutil.copytree(s_, os.path.join(dst, f))
+                elif os.path.exists(s_):
+                    shutil.copy(s_, dst)
+            p = subprocess.run(["patch", "-p1", "-s", "-f", "-d", dst, "-i", os.path.join(d, "patch.diff")], capture_output=True, text=True)
+            if p.returncode != 0:
+                res["skipped"] += 1
+                continue
+            env = dict(os.environ, HV_REPO=dst, HV_EVIDENCE_DIR=os.path.join(tmp, "ev"), VERIF_TIER="quick")
+            q = subprocess.run([os.path.join(VERIF, "hv"), "check", prop, "--tier", "quick"], env=env, capture_output=True, text=True)
+            if q.returncode == 0:
+                res["silent"] += 1
+            else:
+                res["alarming"].append(os.path.basename(d))
+                print("   NOTE: refactoring control %s makes %s alarm although it preserves behaviour (checker precision regression)" % (os.path.basename(d), prop))
+        finally:
+            shutil.rmtree(tmp, ignore_errors=True)
+    print("== %s thorough: %d behaviour-preserving refactorings stayed silent, %d skipped, %d alarming" % (prop, res["silent"], res["skipped"], len(res["alarming"])))
+    return res
+
+
 def run_for(prop):
     ctrls = controls_for(prop)
     fired = skipped = 0
@@ -51,11 +90,13 @@ def run_for(prop):
         finally:
             shutil.rmtree(tmp, ignore_errors=True)
     print("== %s thorough: %d positive controls fired, %d skipped, %d silent" % (prop, fired, skipped, len(broken)))
+    neg = negative_controls(prop)
     # record in the evidence file
     evf = os.path.join(os.environ.get("HV_EVIDENCE_DIR") or os.path.join(VERIF, "evidence"), prop + ".json")
     try:
         ev = json.load(open(evf))
         ev["coverage"]["positive_controls"] = {"fired": fired, "skipped": skipped, "silent": broken, "total": len(ctrls)}
+        ev["coverage"]["negative_controls"] = neg
         if broken:
             ev["violations"] = ev.get("violations", 0) + len(broken)
         json.dump(ev, open(evf, "w"), ensure_ascii=False, indent=1)
